@@ -415,8 +415,19 @@ class Frame:
         elif isinstance(st, ast.For):
             it = self.iterate(self.eval(st.iter))
             broke = False
+            tnames = {n.id for n in ast.walk(st.target) if isinstance(n, ast.Name)}
             for item in it:
                 self.assign(st.target, item)
+                run = item[1] if isinstance(item, tuple) and len(item) == 2 else item
+                if isinstance(run, OpaqueRun):
+                    # one iteration stands for all characters of an opaque run: the body may not
+                    # change any state for them
+                    before = {k: v for k, v in self.env.items() if k not in tnames}
+                    self.exec_block(st.body)
+                    after = {k: v for k, v in self.env.items() if k not in tnames}
+                    if before.keys() != after.keys() or any(before[k] is not after[k] and before[k] != after[k] for k in before):
+                        raise AnalysisError(f"loop over the characters of {run.describe()} changes state for opaque characters ({self.qual})")
+                    continue
                 try:
                     self.exec_block(st.body)
                 except _Continue:
@@ -641,6 +652,8 @@ class Frame:
             return list(v.elems)
         if isinstance(v, str):
             return list(v)
+        if isinstance(v, SStr):
+            return [x for _, x in sstr_chars(v)]
         if isinstance(v, _Gen):
             return v.items
         raise AnalysisError(f"iteration over {v!r} not modelled ({self.qual})")
@@ -1158,6 +1171,10 @@ class Frame:
                 return it.concrete() in c.concrete()
             if it.is_concrete() and len(it.concrete()) == 1:
                 return c.contains_char(it.concrete())
+            if c.is_concrete() and len(it.pieces) == 1 and isinstance(it.pieces[0], av.Atom):
+                at = it.pieces[0]
+                if at.nonempty and all(ch in at.excludes for ch in c.concrete()):
+                    return False
             raise Undecided(f"{it.describe()} in {c.describe()}")
         if isinstance(coll, SObj) and coll.pytype == "Token":
             return self.contains(coll.attrs.get("value"), item)
@@ -1279,6 +1296,30 @@ class Frame:
 class _Gen:
     def __init__(self, items: list):
         self.items = items
+
+
+class OpaqueRun(SStr):
+    """All characters of one opaque atom, visited as a single loop iteration."""
+
+    __slots__ = ()
+
+
+def sstr_chars(s: SStr) -> list:
+    """(index, character) pairs of a symbolic string; an atom contributes one OpaqueRun element and
+    indices become symbolic after it."""
+    out = []
+    pos: Any = 0
+    for p in s.pieces:
+        if isinstance(p, str):
+            for ch in p:
+                out.append((pos, ch))
+                pos = pos + 1
+        elif isinstance(p, av.Atom):
+            out.append((pos, OpaqueRun((p,))))
+            pos = pos + SStr((p,)).length()
+        else:
+            raise AnalysisError("iteration over a repeated string piece")
+    return out
 
 
 def I_hook(fr: Frame, name: str):
